@@ -34,10 +34,10 @@ EXHAUSTIVE = {
 }
 FLOORS = {
     "quick": {"cases_commit": 5000, "cases_abort": 10000, "cases_abort_baseexception": 5000, "reads_checked": 20000,
-              "read_through_after_delete": 1000, "open_block_events": 20000, "reads_of_buffered_empty_value": 500},
+              "read_through_after_delete": 1000, "open_block_events": 20000, "reads_of_buffered_empty_value": 500, "blocks_inside_except_handler": 5000, "big_batches": 10},
     "thorough": {"cases_commit": 100000, "cases_abort": 300000, "cases_abort_baseexception": 100000, "reads_checked": 500000,
                  "read_through_after_delete": 20000, "open_block_events": 500000,
-                 "reads_of_buffered_empty_value": 5000},
+                 "reads_of_buffered_empty_value": 5000, "blocks_inside_except_handler": 50000, "big_batches": 50},
 }
 
 KEYS = [b"k0", b"k1", b"k2"]
@@ -134,7 +134,17 @@ def run_case(case, ctx):
             finally:
                 st["open"] = False
 
-    res = cut(block, expect=tuple(EXITS))
+    def block_in_handler():
+        # the same block, entered while the caller is handling an unrelated exception
+        # (sys.exc_info() is not empty although nothing goes wrong inside the block)
+        try:
+            raise RuntimeError("unrelated exception being handled by the caller")
+        except RuntimeError:
+            return block()
+
+    if case.get("in_handler"):
+        ctx.count("blocks_inside_except_handler")
+    res = cut(block_in_handler if case.get("in_handler") else block, expect=tuple(EXITS))
     ctx.count("open_block_events", st["events"])
     if wrapped.pending_trace_violation is not None:
         tv = wrapped.pending_trace_violation
@@ -194,7 +204,8 @@ def enumerate_cases(ctx, menu, maxlen, start_idx=0):
                             # the kind of exception rotates over the enumeration (Exception subclass,
                             # BaseException subclass, KeyboardInterrupt, GeneratorExit)
                             yield {"pre": pre, "do_deletes": dd, "actions": [list(a) for a in seq], "exit": ex,
-                                   "exc": (idx // ctx.nshards) % len(EXITS)}
+                                   "exc": (idx // ctx.nshards) % len(EXITS),
+                                   "in_handler": (idx // ctx.nshards) % 5 == 0}
                         idx += 1
 
 
@@ -222,13 +233,29 @@ def run_shard(ctx):
             run_case_guarded(mod, case, ctx)
             if ctx.full:
                 return
+    # SCALE: a few batches with well over a thousand buffered entries (writes and deletes over
+    # hundreds of keys that the wrapped database partly holds)
+    for i in range(3 if ctx.tier == "quick" else 12):
+        nk = rnd.randint(600, 900)
+        seq = []
+        for _ in range(rnd.randint(1500, 2500)):
+            k = "k%d" % rnd.randrange(nk)
+            r = rnd.random()
+            seq.append(["set", k, rnd.choice(["a", "b", ""])] if r < 0.55 else (["del", k] if r < 0.9 else ["get", k]))
+        case = {"pre": {"k%d" % j: "w%d" % j for j in range(0, nk, 2)}, "do_deletes": bool(i % 2), "actions": seq,
+                "exit": None if i % 3 else len(seq), "exc": i % len(EXITS)}
+        run_case_guarded(mod, case, ctx)
+        ctx.count("big_batches")
+        if ctx.full:
+            return
     # random longer sequences, including copy()
     menu = menu5 + [("copy", "k0")] + [("set", k, "b") for k in ("k0", "k1", "k2")]
     for i in range(10000 if ctx.tier == "quick" else 60000):
         L = rnd.randint(4, 12)
         seq = [list(rnd.choice(menu)) for _ in range(L)]
         case = {"pre": rnd.choice(PRE), "do_deletes": bool(rnd.randrange(2)), "actions": seq,
-                "exit": rnd.choice([None, None] + list(range(L + 1))), "exc": rnd.randrange(len(EXITS))}
+                "exit": rnd.choice([None, None] + list(range(L + 1))), "exc": rnd.randrange(len(EXITS)),
+                "in_handler": rnd.random() < 0.2}
         if i == 0:
             ctx.sample(case)
         run_case_guarded(mod, case, ctx)
